@@ -54,6 +54,26 @@ Theorem c08_hpack_save_bounded : forall multi fuel st buf acc,
   (length (d_save (fst (fst (dec_loop_gen multi fuel st buf acc)))) <= Nat.max (length (d_save st)) (length buf))%nat.
 Proof. exact dec_loop_save_bound. Qed.
 
+(* Decoder.at: the source makes the dynamic-table range test on the uint64 index, before converting it to int
+   (read from hpack.go on every run).  readVarInt accepts integers up to 2^63 - 1 + 2^n - 1; the totality
+   theorems above cover every index it can deliver.  With the test made AFTER the conversion
+   (`pos := int(i) - 61; if pos > dt.len()`), an index of 2^63 + 61 or more is negative as an int, passes the test
+   and indexes the table out of range: that variant panics for EVERY table. *)
+Theorem c08_hpack_at_compares_uint64 : h2_hpack_at_u64cmp = true.
+Proof. exact (eq_refl true). Qed.
+
+Theorem c08_hpack_at_refuted_with_int_comparison : forall t k, 61 <= k <= 126 ->
+  static_len = 61 -> tab_at_gen false t (9223372036854775808 + k) = HPanic.
+Proof. exact tab_at_int_cmp_panics. Qed.
+Print Assumptions c08_hpack_at_refuted_with_int_comparison.
+
+Example c08_hpack_at_example :
+  static_len = 61 /\
+  dec_int 7 [255; 255; 255; 255; 255; 255; 255; 255; 255; 127] = HOk (9223372036854775808 + 126, []) /\
+  snd (dec_write (dec_new 4096) [255; 255; 255; 255; 255; 255; 255; 255; 255; 127]) = WErr EIndex /\
+  snd (dec_write (dec_new 4096) [127; 255; 255; 255; 255; 255; 255; 255; 255; 127; 0]) = WErr EIndex.
+Proof. repeat split; vm_compute; reflexivity. Qed.
+
 Example c08_hpack_example :
   (* a literal announcing a 2^31-byte string with 3 bytes present: need more, nothing allocated *)
   snd (dec_write (dec_new 4096) [0; 127; 255; 255; 255; 7; 1; 2; 3]) = WOk /\
